@@ -21,7 +21,7 @@ BASE = collections.OrderedDict([
 SECTIONS = ["Tabulation", "Pair", "Potential-Form", "Extra", "Variables"]
 # spellings of existing and of absent keys (embedded whitespace must not matter)
 KEYS = ["A-B", "A - B", " A-B", "A-\tB", "B-B", "C-C", "target", "tar get", "nr", "f(r,A)", "f(r, A)", "g(r)", "myvar", "other var"]
-VALUES = ["as.zero", "v2"]
+VALUES = ["as.zero", "v2", ""]      # (an empty value is a value: `key =` keeps the item)
 
 TARGETS = {n: "_config_parser.ConfigParser._init_config_parser / _RawConfigParser / _ConfigParserDict" for n in
            ("one_override", "one_addition", "two_overrides_pair", "override_then_add", "remove_last_key")}
@@ -102,7 +102,7 @@ def same(a, b):
 
 def one_override(sec: int, key: int, val: int, remove: bool) -> bool:
   """
-  pre: 0 <= sec < 5 and 0 <= key < 14 and 0 <= val < 2
+  pre: 0 <= sec < 5 and 0 <= key < 14 and 0 <= val < 3
   post: _
   """
   ov = [(concrete(SECTIONS[sec]), concrete(KEYS[key]), None if remove else concrete(VALUES[val]))]
@@ -112,7 +112,7 @@ def one_override(sec: int, key: int, val: int, remove: bool) -> bool:
 
 def one_addition(sec: int, key: int, val: int) -> bool:
   """
-  pre: 0 <= sec < 5 and 0 <= key < 14 and 0 <= val < 2
+  pre: 0 <= sec < 5 and 0 <= key < 14 and 0 <= val < 3
   post: _
   """
   ad = [(concrete(SECTIONS[sec]), concrete(KEYS[key]), concrete(VALUES[val]))]
